@@ -1,1 +1,419 @@
-//! Hooks owned by property C03 (feature `verif-hooks`).
+//! C03: structured dump of the MIR after dead-code elimination.
+//!
+//! Every item becomes a flat list of natural numbers (the grammar is below)
+//! plus human-readable side tables (labels, variables, printed text). Each
+//! type carries the `needs_drop` bit computed by the *real* LIR lowerer
+//! (`lir::lower::Lowerer::needs_drop`), i.e. exactly what its drop generation
+//! will do for a `Drop` of that type.
+//!
+//! ```text
+//! item  := nTypes type* nVars varTy* nParams paramVar* retTy nBlocks block*
+//! type  := nd 0                              (opaque leaf)
+//!        | nd 1 nFields fieldTy*             (record)
+//!        | nd 2 nVariants (nFields fieldTy*)*   (enum)
+//! block := label nInstr instr* term
+//! instr := 0 place ty val | 1 var ty variant | 2 place ty
+//! place := var nProj proj*        proj := 0 fieldIdx | 1 variantIdx fieldIdx
+//! val   := 0 (literal) | 1 (constant/context) | 2 place (clone) | 3 var (move)
+//!        | 4 n var* (not/negate/binop: read only) | 5 n (var paramTy)* (call)
+//!        | 6 var (discriminant)
+//! term  := 0 label | 1 var nBranches (value label)* hasDefault [label] | 2 var
+//! ```
+//! Variables and labels are numbered densely per item; a variable whose type
+//! cannot be determined uniquely gets the out-of-range type id `nTypes`.
+
+use std::collections::HashMap;
+
+use crate::{
+    FileTree, NoCtx, RotoReport, Runtime,
+    ir_printer::{IrPrinter, Printable},
+    label::LabelRef,
+    lir::lower::LowerCtx,
+    mir::{
+        Instruction, Item, ItemKind, Mir, Place, Projection, Ty, TyRef,
+        Value, Var,
+    },
+};
+
+/// One dumped MIR item.
+#[derive(Clone, Debug)]
+pub struct ItemDump {
+    pub name: String,
+    pub is_constant: bool,
+    /// the numeric encoding described in the module documentation
+    pub nums: Vec<u64>,
+    /// printed label of block `i`
+    pub labels: Vec<String>,
+    /// printed name of variable `i`
+    pub vars: Vec<String>,
+    /// the item as printed by the crate's own MIR printer
+    pub text: String,
+    /// (printed type, real needs_drop bit) of type `i`
+    pub types: Vec<(String, bool)>,
+}
+
+/// Parse, type check, lower to MIR (with dead-code elimination) and dump
+/// every item.
+pub fn dump(
+    tree: FileTree,
+    rt: &Runtime<NoCtx>,
+) -> Result<Vec<ItemDump>, RotoReport> {
+    let checked = tree.parse()?.typecheck(rt)?;
+    let mut mir = checked.lower_to_mir();
+    Ok(mir.verif_c03_dump())
+}
+
+struct Types {
+    ids: HashMap<usize, usize>,
+    out: Vec<Vec<u64>>,
+    printed: Vec<(String, bool)>,
+}
+
+impl Types {
+    fn id(&mut self, ctx: &mut LowerCtx<'_>, ty: TyRef) -> u64 {
+        if let Some(i) = self.ids.get(&ty.type_id()) {
+            return *i as u64;
+        }
+        let idx = self.out.len();
+        self.ids.insert(ty.type_id(), idx);
+        self.out.push(Vec::new());
+        self.printed.push((String::new(), false));
+        let nd = crate::lir::lower::verif_needs_drop(ctx, ty);
+        let def = ctx.type_info.ty_pool.get(ty).clone();
+        let mut enc = vec![nd as u64];
+        match def {
+            Ty::Record(fields) => {
+                enc.push(1);
+                enc.push(fields.len() as u64);
+                for (_, t) in fields {
+                    let i = self.id(ctx, t);
+                    enc.push(i);
+                }
+            }
+            Ty::Enum(variants) => {
+                enc.push(2);
+                enc.push(variants.len() as u64);
+                for (_, fields) in variants {
+                    enc.push(fields.len() as u64);
+                    for t in fields {
+                        let i = self.id(ctx, t);
+                        enc.push(i);
+                    }
+                }
+            }
+            _ => enc.push(0),
+        }
+        self.out[idx] = enc;
+        let printed = {
+            use crate::typechecker::scoped_display::TypeDisplay;
+            format!("{}", ty.display(ctx.type_info))
+        };
+        self.printed[idx] = (printed, nd);
+        idx as u64
+    }
+}
+
+struct Vars {
+    ids: HashMap<Var, usize>,
+    order: Vec<Var>,
+    /// type ids seen for the variable (declared, or — only for variables
+    /// that are not declared — taken from the instructions that mention it)
+    tys: Vec<Vec<u64>>,
+    declared: Vec<bool>,
+}
+
+impl Vars {
+    fn id(&mut self, v: &Var) -> u64 {
+        if let Some(i) = self.ids.get(v) {
+            return *i as u64;
+        }
+        let i = self.order.len();
+        self.ids.insert(v.clone(), i);
+        self.order.push(v.clone());
+        self.tys.push(Vec::new());
+        self.declared.push(false);
+        i as u64
+    }
+    fn declare(&mut self, v: &Var, ty: u64) {
+        let i = self.id(v) as usize;
+        self.declared[i] = true;
+        if !self.tys[i].contains(&ty) {
+            self.tys[i].push(ty);
+        }
+    }
+    fn note_ty(&mut self, v: &Var, ty: u64) {
+        let i = self.id(v) as usize;
+        if !self.declared[i] && !self.tys[i].contains(&ty) {
+            self.tys[i].push(ty);
+        }
+    }
+}
+
+pub(crate) fn dump_items(mir: &Mir, ctx: &mut LowerCtx<'_>) -> Vec<ItemDump> {
+    mir.items.iter().map(|it| dump_item(it, ctx)).collect()
+}
+
+fn place(
+    p: &Place,
+    ctx: &mut LowerCtx<'_>,
+    types: &mut Types,
+    vars: &mut Vars,
+    out: &mut Vec<u64>,
+) {
+    out.push(vars.id(&p.var));
+    out.push(p.projection.len() as u64);
+    let mut ty = p.root_ty;
+    if p.projection.is_empty() {
+        let t = types.id(ctx, ty);
+        vars.note_ty(&p.var, t);
+    }
+    for proj in &p.projection {
+        let def = ctx.type_info.ty_pool.get(ty).clone();
+        match (proj, def) {
+            (Projection::Field(name), Ty::Record(fields)) => {
+                match fields.iter().position(|f| f.0 == *name) {
+                    Some(i) => {
+                        out.extend([0, i as u64]);
+                        ty = fields[i].1;
+                    }
+                    None => out.extend([0, u32::MAX as u64]),
+                }
+            }
+            (Projection::VariantField(name, n), Ty::Enum(variants)) => {
+                match variants.iter().position(|v| v.0 == *name) {
+                    Some(i) => {
+                        out.extend([1, i as u64, *n as u64]);
+                        if let Some(t) = variants[i].1.get(*n) {
+                            ty = *t;
+                        }
+                    }
+                    None => out.extend([1, u32::MAX as u64, *n as u64]),
+                }
+            }
+            (Projection::Field(_), _) => out.extend([0, u32::MAX as u64]),
+            (Projection::VariantField(_, n), _) => {
+                out.extend([1, u32::MAX as u64, *n as u64])
+            }
+        }
+    }
+    if !p.projection.is_empty() {
+        // the root type of a projected place is the variable's type
+        let t = types.id(ctx, p.root_ty);
+        vars.note_ty(&p.var, t);
+    }
+}
+
+fn dump_item(item: &Item, ctx: &mut LowerCtx<'_>) -> ItemDump {
+    let mut types = Types {
+        ids: HashMap::new(),
+        out: Vec::new(),
+        printed: Vec::new(),
+    };
+    let mut vars = Vars {
+        ids: HashMap::new(),
+        order: Vec::new(),
+        tys: Vec::new(),
+        declared: Vec::new(),
+    };
+
+    // parameters first, then the declared variables
+    let (params, ret_ty): (Vec<Var>, TyRef) = match &item.ty {
+        ItemKind::Function {
+            parameters,
+            mir_signature,
+            ..
+        } => (parameters.clone(), mir_signature.return_type),
+        ItemKind::Constant { mir_ty, .. } => (Vec::new(), *mir_ty),
+    };
+    if let ItemKind::Function {
+        parameters,
+        mir_signature,
+        ..
+    } = &item.ty
+    {
+        for (v, t) in parameters.iter().zip(&mir_signature.parameter_types) {
+            let t = types.id(ctx, *t);
+            vars.declare(v, t);
+        }
+    }
+    for (v, t) in &item.variables {
+        let t = types.id(ctx, *t);
+        vars.declare(v, t);
+    }
+    let ret_ty = types.id(ctx, ret_ty);
+
+    let labels: HashMap<LabelRef, usize> = item
+        .blocks
+        .iter()
+        .enumerate()
+        .map(|(i, b)| (b.label, i))
+        .collect();
+    let lbl = |l: &LabelRef| -> u64 {
+        labels.get(l).map(|i| *i as u64).unwrap_or(u32::MAX as u64)
+    };
+
+    let mut body: Vec<u64> = Vec::new();
+    body.push(item.blocks.len() as u64);
+    for (bi, b) in item.blocks.iter().enumerate() {
+        body.push(bi as u64);
+        let n = b.instructions.len();
+        // dead-code elimination leaves exactly one terminator, at the end
+        body.push(n.saturating_sub(1) as u64);
+        for (k, ins) in b.instructions.iter().enumerate() {
+            let last = k + 1 == n;
+            match ins {
+                Instruction::Assign { to, ty, value } => {
+                    body.push(0);
+                    place(to, ctx, &mut types, &mut vars, &mut body);
+                    let t = types.id(ctx, *ty);
+                    body.push(t);
+                    if to.projection.is_empty() {
+                        vars.note_ty(&to.var, t);
+                    }
+                    match value {
+                        Value::Const(..) => body.push(0),
+                        Value::Constant(..) | Value::Context(..) => {
+                            body.push(1)
+                        }
+                        Value::Clone(p) => {
+                            body.push(2);
+                            place(p, ctx, &mut types, &mut vars, &mut body);
+                        }
+                        Value::Move(v) => {
+                            body.push(3);
+                            body.push(vars.id(v));
+                        }
+                        Value::Not(v) | Value::Negate(v, _) => {
+                            body.extend([4, 1]);
+                            body.push(vars.id(v));
+                        }
+                        Value::BinOp { left, right, .. } => {
+                            body.extend([4, 2]);
+                            body.push(vars.id(left));
+                            body.push(vars.id(right));
+                        }
+                        Value::Discriminant(v) => {
+                            body.push(6);
+                            body.push(vars.id(v));
+                        }
+                        Value::Call {
+                            args,
+                            mir_signature,
+                            ..
+                        }
+                        | Value::CallRuntime {
+                            args,
+                            mir_signature,
+                            ..
+                        } => {
+                            body.push(5);
+                            body.push(args.len() as u64);
+                            for (i, a) in args.iter().enumerate() {
+                                body.push(vars.id(a));
+                                let t = match mir_signature
+                                    .parameter_types
+                                    .get(i)
+                                {
+                                    Some(t) => types.id(ctx, *t),
+                                    None => u32::MAX as u64,
+                                };
+                                body.push(t);
+                            }
+                        }
+                    }
+                    if last {
+                        body.extend([0, u32::MAX as u64]); // malformed: no terminator
+                    }
+                }
+                Instruction::SetDiscriminant { to, ty, variant } => {
+                    body.push(1);
+                    body.push(vars.id(to));
+                    let t = types.id(ctx, *ty);
+                    vars.note_ty(to, t);
+                    body.push(t);
+                    let idx = match ctx.type_info.ty_pool.get(*ty) {
+                        Ty::Enum(variants) => variants
+                            .iter()
+                            .position(|v| v.0 == *variant)
+                            .map(|i| i as u64)
+                            .unwrap_or(u32::MAX as u64),
+                        _ => u32::MAX as u64,
+                    };
+                    body.push(idx);
+                    if last {
+                        body.extend([0, u32::MAX as u64]);
+                    }
+                }
+                Instruction::Drop { val, ty } => {
+                    body.push(2);
+                    place(val, ctx, &mut types, &mut vars, &mut body);
+                    let t = types.id(ctx, *ty);
+                    if val.projection.is_empty() {
+                        vars.note_ty(&val.var, t);
+                    }
+                    body.push(t);
+                    if last {
+                        body.extend([0, u32::MAX as u64]);
+                    }
+                }
+                Instruction::Jump(l) => {
+                    body.extend([0, lbl(l)]);
+                }
+                Instruction::Switch {
+                    examinee,
+                    branches,
+                    default,
+                } => {
+                    body.push(1);
+                    body.push(vars.id(examinee));
+                    body.push(branches.len() as u64);
+                    for (v, l) in branches {
+                        body.push(*v as u64);
+                        body.push(lbl(l));
+                    }
+                    match default {
+                        Some(l) => body.extend([1, lbl(l)]),
+                        None => body.push(0),
+                    }
+                }
+                Instruction::Return { var } => {
+                    body.push(2);
+                    body.push(vars.id(var));
+                }
+            }
+        }
+    }
+
+    let ntypes = types.out.len() as u64;
+    let mut nums = Vec::new();
+    nums.push(ntypes);
+    for t in &types.out {
+        nums.extend(t);
+    }
+    nums.push(vars.order.len() as u64);
+    for tys in &vars.tys {
+        // exactly one type, or the out-of-range id (the checker rejects uses)
+        nums.push(if tys.len() == 1 { tys[0] } else { ntypes });
+    }
+    nums.push(params.len() as u64);
+    for p in &params {
+        nums.push(vars.id(p));
+    }
+    nums.push(ret_ty);
+    nums.extend(body);
+
+    let printer = IrPrinter {
+        type_info: ctx.type_info,
+        label_store: ctx.label_store,
+        scope: Some(item.scope),
+    };
+    ItemDump {
+        name: item.name.as_str().to_string(),
+        is_constant: matches!(item.ty, ItemKind::Constant { .. }),
+        nums,
+        labels: item.blocks.iter().map(|b| b.label.print(&printer)).collect(),
+        vars: vars.order.iter().map(|v| v.print(&printer)).collect(),
+        text: item.print(&printer),
+        types: types.printed,
+    }
+}
